@@ -1505,7 +1505,13 @@ class BaseLoss(object):
                                      len(self._targetState))
             elif self._targetState is None:
                 # this mean all the state or without the states
-                if len(theta) == self._num_param:
+                if len(theta) == (self._num_state + len(self._targetParam)):
+                    # the target parameters followed by all the states.  Tested
+                    # first: this length may coincide with the number of
+                    # parameters
+                    self._unrollParam(theta[:len(self._targetParam)])
+                    self._setX0(theta[-self._num_state:])
+                elif len(theta) == self._num_param:
                     # without the states, obviously using the wrong function
                     # call
                     raise InputError("Input has the same length as the " +
@@ -1517,11 +1523,6 @@ class BaseLoss(object):
                     # begin setting the information
                     self._setParam(theta[:self._num_param])
                     # then the states
-                    # x0 = theta[-self._num_state:]
-                    self._setX0(theta[-self._num_state:])
-                elif len(theta) == (self._num_state + len(self._targetParam)):
-                    # again we have all the states
-                    self._unrollParam(theta[:len(self._targetParam)])
                     # x0 = theta[-self._num_state:]
                     self._setX0(theta[-self._num_state:])
                 else: # happy
